@@ -64,7 +64,7 @@ Theorem clauses_then : forall cl p more r, clauses_ok p cl ->
   evRes (fun f => controllers f p (clauses_text cl ++ more)) r.
 Proof.
   induction cl as [|[w c] cl IH]; intros p more r W H; [exact H|].
-  inversion W as [|? ? ? ? Hw Hne Hc Wr]; subst. cbn [map snd fold_left] in H. specialize (IH (apply_clause p c) more r Wr H).
+  inversion W as [|? ? ? ? Hw Hc Wr]; subst. cbn [map snd fold_left] in H. specialize (IH (apply_clause p c) more r Wr H).
   unfold clauses_text in *. cbn [map List.concat fst snd]. rewrite <- !app_assoc.
   eapply evRes_ext; [intros f; apply (controllers_ws_norm f p w _ Hw)|].
   destruct c as [w1 w2 w3 v|nt w0 items|w0 items]; cbn [clause_text apply_clause clause_ok] in *.
@@ -95,17 +95,15 @@ Print Assumptions controllers_second_archs.
 Lemma possi_err name q rel T : 
   name <> [] -> forallb namec name = true -> eqc (peek name) 36 = false ->
   (match q with None => True | Some a => forallb mac (arch_string a) = true /\ parse_arch (arch_string a) = a /\ arch_ok (arch_string a) = true end) ->
-  is_ws (peek T) = true ->
+  ctlhead (peek T) = true ->
   evRes (fun f => controllers f (base name q) T) Err ->
   evRes (fun f => parse_possibility f rel (name ++ qual_text q ++ T)) Err.
 Proof.
   intros Hne Hc Hd Ha Hw (f1&H1).
   assert (Fin : forall f, (S f1 <= f)%nat -> possi_loop f (base name q) rel T = Err).
   { intros [|f] Hf; [lia|]. cbn [possi_loop].
-    assert (C58 : eqc (peek T) 58 = false).
-    { pose proof (by_enum (fun c => negb (is_ws c) || negb (eqc c 58)) eq_refl (peek T)) as F.
-      cbv beta in F. rewrite Hw in F. cbn in F. now apply negb_true_iff in F. }
-    rewrite C58, Hw. cbn [orb]. now rewrite (H1 f ltac:(lia)). }
+    destruct (ctlhead_facts _ Hw) as [C58 _].
+    rewrite C58. fold (ctlhead (peek T)). rewrite Hw. now rewrite (H1 f ltac:(lia)). }
   destruct name as [|c0 n0] eqn:En; [congruence|].
   assert (Hc0 : namec c0 = true) by (cbn in Hc; now apply andb_true_iff in Hc as [? _]).
   destruct (namec_head_facts c0 Hc0) as (W0&S0&_&_).
@@ -119,7 +117,7 @@ Proof.
   destruct q as [a|].
   - destruct Ha as (Hm&Hrt&Hok). destruct g as [|g]; [lia|]. cbn [qual_text app possi_loop peek].
     change (eqc (ch 58) 58) with true. cbv iota. unfold parse_multiarch. cbn [adv tl].
-    assert (Hstop : multiarch_stop (peek T) = true) by (unfold multiarch_stop; rewrite Hw; now rewrite !orb_true_r).
+    assert (Hstop : multiarch_stop (peek T) = true) by (now destruct (ctlhead_facts _ Hw)).
     rewrite (multiarch_word (arch_string a) [] _ Hm Hstop). cbn [app]. rewrite (arch_named_ok _ _ Hok), Hrt.
     replace (set_arch (with_name fresh (c0 :: n0)) a) with (base (c0 :: n0) (Some a)) by reflexivity.
     apply Fin. lia.
@@ -130,7 +128,7 @@ Qed.
 Theorem parse_err_first name q T :
   name <> [] -> forallb namec name = true -> eqc (peek name) 36 = false ->
   (match q with None => True | Some a => forallb mac (arch_string a) = true /\ parse_arch (arch_string a) = a /\ arch_ok (arch_string a) = true end) ->
-  is_ws (peek T) = true ->
+  ctlhead (peek T) = true ->
   evRes (fun f => controllers f (base name q) T) Err ->
   parse (name ++ qual_text q ++ T) = Err.
 Proof.
